@@ -136,6 +136,10 @@ def run(F, rep, tier="quick", extra=None, only=None):
                     continue
                 s_, d_ = base_ty(ta[0]), base_ty(ta[1])
                 n_cast += 1
+                # whole-array reinterpretation with different element counts: the counts must be tied together on the path
+                cs, cd = array_count(ta[0]), array_count(ta[1])
+                if cs is not None and cd is not None and cs != cd:
+                    problems += check_counts(ta, cs, cd, path, have, S)
                 if s_ == d_:
                     continue
                 rel = related(s_, d_)
@@ -171,11 +175,126 @@ def run(F, rep, tier="quick", extra=None, only=None):
     rep.floor("type-changing casts on paths", n_cast, 48)
     rep.floor("length computations", n_len, 14)
 
+    check_unsafe_impls(F, rep)
     check_alloc(F, rep)
     check_in_place_maps(F, rep)
     check_forwarders(F, rep)
     check_layout(F, rep, tier)
     return {"level": "other"}
+
+
+def check_unsafe_impls(F, rep):
+    """CAST-HOMOG: a hand-written `unsafe impl ArrayCast` is sound only if every non-zero-sized field of the type has the array's item type
+    (or is itself ArrayCast with that item type): each field's type must be (a) a type parameter bounded by ArrayCast, (b) the projection
+    `<<C as ArrayCast>::Array as ArrayExt>::Item` itself (through the impl's self type or an `Item == T` where-clause), or (c) the array type."""
+    n = 0
+    for im in F.impls:
+        tr = str(im.get("trait") or "")
+        if not tr.endswith("ArrayCast") or im.get("derived"):
+            continue
+        adt = im.get("self_adt")
+        if not adt or adt not in F.adt_by_path:
+            continue
+        n += 1
+        a = F.adt_by_path[adt]
+        gens = a.get("generics", [])
+        self_args = alg.split_type(im["self_s"])[1] if "<" in im["self_s"] else []
+        inst = dict(zip(gens, self_args))  # ADT generic -> how the impl instantiates it
+        preds = im.get("preds", [])
+        arr = [F.S[i["ty"]] for i in im["items"] if i["n"] == "Array" and "ty" in i]
+        problems = []
+        for f in a["variants"][0]["f"]:
+            ft = F.S[f["t"]]
+            if "PhantomData" in ft:
+                continue
+            it = inst.get(ft, ft)
+            ok = False
+            # equality closure of the impl's `A == B` predicates
+            cls = {it}
+            grew = True
+            while grew:
+                grew = False
+                for p in preds:
+                    if " == " in p:
+                        l, r = p.split(" == ", 1)
+                        if (l in cls) != (r in cls):
+                            cls |= {l, r}
+                            grew = True
+            if any(re.search(r"ArrayExt>::Item$", x) for x in cls):
+                ok = True   # (b) the item projection itself, directly or through where-clause equalities
+            elif any(p.replace(" ", "") == ("%s:cast::array::ArrayCast" % it).replace(" ", "") for p in preds):
+                ok = True   # (a) a nested ArrayCast colour
+            elif arr and it == arr[0]:
+                ok = True   # (c) the array itself (Packed)
+            if not ok:
+                problems.append("field `%s: %s` (instantiated as `%s`) is not tied to the array's item type" % (f["n"], ft, it))
+        rep.ob("CAST-HOMOG", "unsafe impl ArrayCast for " + im["self_s"], not problems, "; ".join(problems) if problems else
+               "every field is the item type, a nested ArrayCast type, or the array (Array = %s)" % (arr[0] if arr else "?"), "%s" % adt)
+    rep.floor("hand-written unsafe ArrayCast impls", n, 3)
+
+
+def array_count(t):
+    """N of `[X; N]` (through ManuallyDrop), else None."""
+    t = t.strip()
+    for pre in ("std::mem::ManuallyDrop<", "core::mem::ManuallyDrop<"):
+        if t.startswith(pre) and t.endswith(">"):
+            t = t[len(pre):-1].strip()
+    if not (t.startswith("[") and t.endswith("]")):
+        return None
+    inner = t[1:-1]
+    depth = 0
+    cut = None
+    for i, ch in enumerate(inner):
+        if ch in "<([":
+            depth += 1
+        elif ch in ">)]":
+            depth -= 1
+        elif ch == ";" and depth == 0:
+            cut = i
+    return inner[cut + 1:].strip() if cut is not None else None
+
+
+def check_counts(ta, cs, cd, path, have, S):
+    """[A; cs] -> [B; cd] with cs != cd (components <-> colours): either the whole arrays' sizes are asserted equal, or the counts are
+    tied by `cs % LENGTH == 0` and `cs / LENGTH == cd` (resp. `cs * LENGTH == cd`) on the path."""
+    def strip_md(t):
+        t = t.strip()
+        for pre in ("std::mem::ManuallyDrop<", "core::mem::ManuallyDrop<"):
+            if t.startswith(pre) and t.endswith(">"):
+                t = t[len(pre):-1].strip()
+        return t
+    whole = frozenset((strip_md(ta[0]), strip_md(ta[1])))
+    if ("size_of", whole) in have:
+        # the whole-array size equality alone is not enough to exclude a remainder that happens to fit; require divisibility as well
+        pass
+    ctx = S.ctx
+    n_s, n_d = ctx.sym("const:" + cs), ctx.sym("const:" + cd)
+    ls = [poly.atom_by_id(i) for c, pol in path for i in (sym.Ctx._cond_rf.get(c).atoms() if isinstance(sym.Ctx._cond_rf.get(c), RatFunc) else []) if "ArrayExt::LENGTH<" in poly.atom_by_id(i).name]
+    if not ls:
+        return ["array of %s elements reinterpreted as %s elements without any relation to LENGTH on the path" % (cs, cd)]
+    L = RatFunc.atom(ls[0], ctx.tab)
+    to_colours = re.search(r"ArrayExt>::Item", ta[0]) is not None
+    want = (n_s - L * n_d) if to_colours else (n_s * L - n_d)
+    tied = divisible = False
+    for c, pol in path:
+        d = sym.Ctx._cond_rf.get(c)
+        if not (pol and c[0] == "cmp" and c[2] == "==" and isinstance(d, RatFunc)):
+            continue
+        sc = sym.show_cond(c)
+        if "rem(" in sc and ("const:" + cs) in sc and "LENGTH" in sc:
+            divisible = True
+        for cand in (want, -want, want / L, -want / L):
+            try:
+                if d.equals(cand):
+                    tied = True
+            except ZeroDivisionError:
+                pass
+    out = []
+    if not tied:
+        out.append("[_; %s] -> [_; %s]: no dominating check ties the counts (%s)" % (cs, cd, "%s / LENGTH == %s" % (cs, cd) if to_colours else "%s * LENGTH == %s" % (cs, cd)))
+    if to_colours and not divisible:
+        out.append("[_; %s] -> [_; %s]: `%s / LENGTH == %s` rounds down — without a dominating `%s %% LENGTH == 0` trailing components are dropped" % (cs, cd, cs, cd, cs))
+    return out
 
 
 def check_lengths(a, path, S):
